@@ -202,7 +202,7 @@ func init() {
 		// S6 archetype graph: add / remove / exchange of every component subset over {P,Q,T9}
 		scs = append(scs, &engine.Scenario{
 			Name: "C01-S6-graph", Cfgs: autoPad(cfgs([]int{1}, []int{0}, one, uPQ), 2, 1), Filters: plainFilters(ct.P, ct.Q), Slots: 1,
-			Oracle: func() drv.Oracle { o := worldOracle; o.Family = plainFamily(ct.P, ct.Q); return o }(),
+			Oracle:   func() drv.Oracle { o := worldOracle; o.Family = plainFamily(ct.P, ct.Q); return o }(),
 			Alphabet: graphAlphabet([]ct.Comp{ct.P, ct.Q, ct.T9}, 3), Depth: d,
 		})
 		// S4 batch moves, S5 reset/shrink interleaved
